@@ -107,7 +107,13 @@ func ConcatItems[T any](items []T) (T, error) {
 		return t, err
 	}
 
-	return cv.Interface().(T), nil
+	out := cv.Interface()
+	if out == nil {
+		// every chunk was a nil interface value: the zero value of the (interface) type T
+		var t T
+		return t, nil
+	}
+	return out.(T), nil
 }
 
 func concatMaps(ms reflect.Value) (reflect.Value, error) {
